@@ -1105,20 +1105,55 @@ def is_raster_arg(a):
     return isinstance(a, dict) and ("ref" in a or "gen" in a or "derive" in a)
 
 
-def equal_key_variant(rng, v, strings=True):
-    """a value a dictionary / lru_cache key cannot tell from `v` although the call is another one:
-    1 / 1.0 / True hash alike, an array with the same bytes, a distance string for the same number"""
+def twins_of(a, limit=3):
+    """arrays with the same byte image as `a` in other dtypes (and therefore other lengths / values)"""
+    import numpy as np
+    arr = unjson(a)
+    nb = arr.nbytes
+    out = []
+    for dt in ("int32", "int64", "float32", "int16", "uint8", "float64"):
+        if dt != str(arr.dtype) and nb and nb % np.dtype(dt).itemsize == 0:
+            out.append({"__bytes_of__": a, "dtype": dt})
+    return out[:limit]
+
+
+def equal_key_variants(v, strings=True):
+    """values a dictionary / lru_cache key (or a key built from `.tobytes()`, `str()`, `float()`) cannot tell from `v`
+    although the call is another one: 1 / 1.0 / True hash alike, an array with the same bytes in another dtype and
+    length, a list and the array of its elements, a distance string for the same number"""
     if isinstance(v, dict) and "__arr__" in v:
-        return twin_array(rng, v)
+        return twins_of(v)
     if isinstance(v, bool):
-        return int(v)
+        return [int(v)]
     if isinstance(v, int):
-        return rng.choice([float(v), str(v) if strings else float(v)] if v not in (0, 1) else [float(v), bool(v)])
+        return [float(v)] + ([str(v)] if strings and v not in (0, 1) else []) + ([bool(v)] if v in (0, 1) else [])
     if isinstance(v, float) and v == int(v):
-        return int(v)
+        return [int(v)]
     if isinstance(v, list) and v and all(isinstance(x, (int, float)) and not isinstance(x, bool) for x in v):
-        return {"__arr__": v, "dtype": rng.choice(["int64", "float64", "int32"])} if rng.random() < 0.5 else [float(x) for x in v]
-    return None
+        ints = all(float(x) == int(x) for x in v)
+        arr = {"__arr__": v, "dtype": "int64" if ints else "float64"}
+        return [arr, [float(x) for x in v]] + twins_of(arr, 2)
+    return []
+
+
+def equal_key_variant(rng, v, strings=True):
+    vs = equal_key_variants(v, strings)
+    return rng.choice(vs) if vs else None
+
+
+def equal_key_calls(spec, limit=8):
+    """the call with each argument in turn replaced by each of its equal-key variants"""
+    out = []
+    base = {k: v for k, v in spec.items() if k not in ("scribble", "repeat")}
+    slots = [("kw", k) for k in base["kw"]] + [("args", i) for i, a in enumerate(base["args"]) if not is_raster_arg(a) and not
+             (isinstance(a, dict) and "dataset" in a)]
+    for where, k in slots:
+        for v in equal_key_variants(base[where][k], strings=(where == "args")):
+            new = copy.deepcopy(base)
+            new[where][k] = v
+            new["related"] = "equal-key"
+            out.append(new)
+    return out[:limit]
 
 
 def related_call(rng, pool, spec, fn2=None):
@@ -1177,15 +1212,15 @@ def derive_from(rng, pool, spec, fn2):
     return None
 
 
-def enlarge(spec, rng):
+def enlarge(spec, rng, pool):
     """the same call on rasters of >= 250 000 cells (numpy backed, one common shape)"""
     new = copy.deepcopy(spec)
     shape = rng.choice([(512, 512), (520, 504), (500, 512)])
     for i, a in enumerate(new["args"]):
         if is_raster_arg(a):
-            g = dict(a["gen"]) if "gen" in a else None
-            if g is None:
+            if "derive" in a:
                 return None
+            g = {k: v for k, v in (a["gen"] if "gen" in a else pool[a["ref"]]).items() if k not in ("used", "tainted")}
             g.update(h=shape[0], w=shape[1])
             g.pop("chunks", None)
             new["args"][i] = {"gen": g}
@@ -1203,8 +1238,9 @@ def gen_big_history(rng, fns=None, n_calls=2):
         if len(hist) >= n_calls:
             break
         for _ in range(5):
-            spec = gen_call_of(rng, {}, fn)
-            spec = spec and enlarge(spec, rng)
+            tmp = {}
+            spec = gen_call_of(rng, tmp, fn)
+            spec = spec and enlarge(spec, rng, tmp)
             if spec is not None and any(is_raster_arg(a) for a in spec["args"]):
                 spec["size"] = "huge"
                 hist.append(spec)
@@ -1250,7 +1286,8 @@ def gen_cell_history(rng, cell, writers, readers, n_rounds=3):
         followers.append(related_call(rng, pool, c1))
         followers = [f for f in followers if f is not None]
         rng.shuffle(followers)
-        for f in followers[:4]:
+        followers = followers[:4] + equal_key_calls(c1)       # ... and every argument in turn by each of its equal-key variants
+        for f in followers:
             if rng.random() < 0.4:
                 f["scribble"] = True
             hist.append(f)
@@ -1733,7 +1770,7 @@ def run(r, budget=None, focus=None, histories=None, configs_of=None):
     lab = Lab(r)
     try:
         tier = r.tier
-        n_hist, max_len, configs = {"quick": (3, 12, THREAD_CONFIGS), "thorough": (8, 60, THREAD_CONFIGS)}[tier]
+        n_hist, max_len, configs = {"quick": (4, 12, THREAD_CONFIGS), "thorough": (8, 60, THREAD_CONFIGS)}[tier]
         if budget:
             n_hist, max_len = budget
 
